@@ -132,6 +132,34 @@ static void run_allwords(uint64_t idx, pv_rng* rng) {
     pv_transcript(T);
 }
 
+/* ---------------------------------------------------------------- bytes at the edges of the accent block, where sign extension of a char would matter */
+static uint64_t n_edges(void) { return 2 * 128; }
+static void run_edges(uint64_t idx, pv_rng* rng) {
+    T = 0xed9e;
+    pv_mlang* L = pv_lang_by_name(idx & 1 ? "French" : "Spanish");
+    if (!L || !L->lib) return;
+    static const uint32_t edge[] = { 0x2ff, 0x300, 0x33f, 0x340, 0x36f, 0x370, 0x374, 0x37f, 0x380, 0x3bf, 0x7f, 0x80, 0xbf, 0xc0, 0xff, 0x100 };
+    for (unsigned w = (unsigned)(idx / 2) * 16; w < (unsigned)(idx / 2 + 1) * 16; ++w) {
+        for (unsigned e = 0; e < sizeof edge / sizeof *edge; ++e) {
+            unsigned coin = pv_gen_coin(rng), d[16]; pv_mseed m; int p = (int)((w + e) % 16);
+            pv_gen_place(rng, p, w, coin, false, 7, d, &m);
+            char phrase[2048]; size_t k = 0;
+            for (int i = 0; i < 16; ++i) {
+                const char* t = L->word[d[i]]; size_t l = strlen(t);
+                if (i == p && (e & 1)) { /* after the fourth letter */ int letters = 0; size_t c = 0; uint32_t cps[64]; int nc = pv_utf8_decode(t, cps, 64);
+                    for (int q = 0; q < nc; ++q) { if (!pv_is_accent(cps[q])) { if (letters == 4) { k += (size_t)pv_utf8_encode(edge[e], phrase + k); letters = 99; } ++letters; } k += (size_t)pv_utf8_encode(cps[q], phrase + k); } (void)c;
+                    if (letters < 99) k += (size_t)pv_utf8_encode(edge[e], phrase + k); }
+                else { memcpy(phrase + k, t, l); k += l; if (i == p) k += (size_t)pv_utf8_encode(edge[e], phrase + k); }
+                if (i < 15) phrase[k++] = ' ';
+            }
+            phrase[k] = 0;
+            op_decode(phrase, coin, L, NULL, "accent-block-edge");
+            PV_COUNT("edges.tokens", 1);
+        }
+    }
+    pv_transcript(T);
+}
+
 /* ---------------------------------------------------------------- passwords */
 static uint64_t n_passwords(void) { return pv_scaled(2000, 60000); }
 static void run_passwords(uint64_t idx, pv_rng* rng) {
@@ -175,6 +203,6 @@ static void run_grammar(uint64_t idx, pv_rng* rng) {
 }
 
 int main(int argc, char** argv) {
-    static const pv_section secs[] = { { "phrases", n_phrases, run_phrases }, { "allwords", n_allwords, run_allwords }, { "passwords", n_passwords, run_passwords }, { "grammar", n_grammar, run_grammar } };
-    return pv_main(argc, argv, "C19", secs, 4, init, NULL);
+    static const pv_section secs[] = { { "phrases", n_phrases, run_phrases }, { "allwords", n_allwords, run_allwords }, { "edges", n_edges, run_edges }, { "passwords", n_passwords, run_passwords }, { "grammar", n_grammar, run_grammar } };
+    return pv_main(argc, argv, "C19", secs, 5, init, NULL);
 }
